@@ -111,8 +111,14 @@ func (b *balancer) next() (int, error) {
 	if len(b.roundRobinQ) == 1 {
 		return b.roundRobinQ[0], nil
 	}
-	// 无锁原子自增（自动处理溢出）
-	newIndex := atomic.AddUint32(&b.nextIndex, 1)
-	idx := int64(newIndex) % int64(len(b.roundRobinQ))
-	return b.roundRobinQ[idx], nil
+	// 无锁原子自增. The counter is kept reduced modulo the queue length: a free-running
+	// uint32 skips or repeats a queue slot when it wraps at 2^32 (unless the length divides 2^32).
+	n := uint32(len(b.roundRobinQ))
+	for {
+		old := atomic.LoadUint32(&b.nextIndex)
+		idx := (old%n + 1) % n
+		if atomic.CompareAndSwapUint32(&b.nextIndex, old, idx) {
+			return b.roundRobinQ[idx], nil
+		}
+	}
 }
